@@ -11,7 +11,7 @@ def decode_vs_reference(tier, seed):
     rnd = random.Random(seed)
     n = 120 if tier == 'quick' else 3000
     fails, evals, distinct, samples = [], 0, set(), []
-    for kind in ('ebgp4', 'ibgp2', 'addpath'):
+    for kind in ('ebgp4', 'ibgp2', 'addpath', 'enh'):
         for _ in range(n):
             body, attrs, wd, nlri = P.gen_update(rnd, kind)
             evals += 1
